@@ -48,6 +48,14 @@ func checkC10(c *Ctx) {
 	c.c10Views()
 	// the error an expired read returns is an ErrExpired (errors.Is) that carries ExpiredAt: type-level obligations of C03 R03.3
 	c.borrow("C03", func() { c.c03ExpiryErrorTypes() }, func(o *coreObl) (string, bool) { return "R10.5", o.Rule == "R03.3" })
+	// "reads before that instant return the value", "never expires": nothing but Delete/DeleteAll/eviction takes an entry away before
+	// its expiry — the janitor removes an entry only when E ≠ 0 ∧ E < now − DeleteExpiredAfter (C11 R11.1/R11.2)
+	c.borrow("C11", func() {
+		c.c11Boundary()
+		for _, b := range backends {
+			c.c11DeleteExpired(b)
+		}
+	}, func(o *coreObl) (string, bool) { return "R10.4", o.Rule == "R11.1" || o.Rule == "R11.2" })
 	// a restored entry keeps its own E: gob does not transmit zero fields, so a decode target re-used across records hands the
 	// previous record's expiry to a never-expiring one (C13 R13.1)
 	c.borrowKinds("C13", func() { checkC13(c) }, "R10.3", "Restore:own-storage-per-record", []string{"R13.1"}, "decode-target-reused", "stored-not-target")
